@@ -106,6 +106,14 @@ pub fn judge_angle(call: usize, x: [f64; 2], l: Option<&mut crate::run::Local>) 
         Ok(r) => [r.hi(), r.lo()],
         Err(m) => return Verdict::fail("no_panic", name, &args, format!("panic: {}", m), "a value".into(), "panic"),
     };
+    // the trait spellings of the two conversions must be the same function
+    if let Ok((a, b)) = api(|| if call == 0 { (<TF as num_traits::Float>::to_degrees(t), <TF as num_traits::float::FloatCore>::to_degrees(t)) } else { (<TF as num_traits::Float>::to_radians(t), <TF as num_traits::float::FloatCore>::to_radians(t)) }) {
+        for (nm, v) in [("Float", a), ("FloatCore", b)] {
+            if v.hi().to_bits() != r[0].to_bits() || v.lo().to_bits() != r[1].to_bits() {
+                return Verdict::fail("angle: trait spelling", name, &args, format!("{}::{} = {}", nm, name, show_dd([v.hi(), v.lo()])), format!("inherent {}", show_dd(r)), "spelling_differs");
+            }
+        }
+    }
     let xb = bfx(x);
     judge_tol(
         "angle: 6u^2",
